@@ -89,6 +89,33 @@ func c09Setup(prm c09Params) func(c *fw.Ctx, name string) explore.Setup {
 					}
 				}
 				switch prm.State {
+				case "closeframe-midmessage":
+					// the peer's Close frame arrives between the fragments of a message while a Read
+					// of that message is in progress: the read fails; then the action
+					st.p.Send(append(peerData(k, frame.OpBinary, false, fill(0xC1, 20)), peerClose(k, 1000, "bye")...))
+					blockedEarly := func() {
+						_, r, err := conn.Reader(bg)
+						if err == nil {
+							io.Copy(io.Discard, r)
+						}
+					}
+					blockedEarly()
+				case "reread-after-eof":
+					// a message is read to the end, its reader is asked once more (nothing, or the end
+					// again), then the action
+					msg := fill(0xC2, 300)
+					if k.Flate {
+						pl := (&deflate.Deflater{NoContextTakeover: k.readerNoTakeover()}).Message(msg)
+						st.p.Send(peerFrame(k, frame.Frame{Fin: true, Rsv1: true, Opcode: frame.OpBinary, Payload: pl}))
+					} else {
+						st.p.Send(peerData(k, frame.OpBinary, true, msg))
+					}
+					_, r, err := conn.Reader(bg)
+					if err == nil {
+						io.Copy(io.Discard, r)
+						var b [8]byte
+						r.Read(b[:])
+					}
 				case "halfread":
 					// a complete first fragment (fin=0) is available and one byte of it is consumed
 					st.p.Send(peerData(k, frame.OpBinary, false, fill(0xC0, 20)))
@@ -386,6 +413,16 @@ func c09Scenarios(tier string) []scenario {
 		for _, s := range []string{"idle", "reader", "reader-once", "closeread"} {
 			prm := c09Params{K: k, Adv: "slowThenData", State: s, Action: "Close"}
 			scs = append(scs, scenario{Name: prm.name(), Cfg: cfg, Setup: c09Setup(prm)})
+		}
+		for _, kk := range []connCfg{k, {Client: k.Client, Flate: true, CNCT: k.Client, SNCT: k.Client}} {
+			for _, s := range []string{"closeframe-midmessage", "reread-after-eof"} {
+				for _, a := range []string{"silent", "echo4900"} {
+					for _, act := range []string{"Close", "CloseNow"} {
+						prm := c09Params{K: kk, Adv: a, State: s, Action: act}
+						scs = append(scs, scenario{Name: prm.name(), Cfg: cfg, Setup: c09Setup(prm)})
+					}
+				}
+			}
 		}
 		for _, a := range []string{"pingNoRead", "latePing"} {
 			for _, s := range []string{"idle", "reader", "closeread"} {
